@@ -51,7 +51,7 @@ impl Report {
     let s = self.sets.entry(set.to_string()).or_default();
     if s.len() < 4096 { s.insert(item.into()); }
   }
-  pub fn nontrivial(&mut self, digest: u64) { if self.nontrivial.len() < 4_000_000 { self.nontrivial.insert(digest); } }
+  pub fn nontrivial(&mut self, digest: u64) { if self.nontrivial.len() < 64_000_000 { self.nontrivial.insert(digest); } }
   pub fn sample(&mut self, f: impl FnOnce() -> J) { if self.samples.len() < MAX_SAMPLES { self.samples.push(f()); } }
   pub fn alarm(&mut self, a: Alarm) {
     self.alarm_total += 1;
